@@ -176,8 +176,23 @@ def generated_programs(tier, seed, limit=None):
 
 def mutate_terms(rng, terms, alphabet):
     t = list(terms)
-    op = rng.randrange(5)
+    op = rng.randrange(6)
     i = rng.randrange(len(t)) if t else 0
+    if op == 5:
+        # both brackets of a matched pair deleted (a required "{ ... }", "< ... >", "( ... )", "[ ... ]" made optional)
+        close = {"{": "}", "<": ">", "(": ")", "[": "]"}
+        stack, pairs = [], []
+        for k, x in enumerate(t):
+            if x in close:
+                stack.append(k)
+            elif x in close.values() and stack and close[t[stack[-1]]] == x:
+                pairs.append((stack.pop(), k))
+        if pairs:
+            a, b = pairs[rng.randrange(len(pairs))]
+            del t[b]
+            del t[a]
+            return t, "unbracket"
+        op = rng.randrange(5)
     if op == 0 and t:
         del t[i]
         return t, "delete"
@@ -306,6 +321,42 @@ def check_c04(tier, seed):
             continue
         seen.add(key)
         muts.append({"terms": t, "op": op})
+    # systematic: for every constituent kind and every terminal the constituent owns directly (not through a child constituent):
+    # that terminal deleted, and every bracket pair it owns deleted - "a required token made optional" for every rule of the
+    # grammar, on the shortest sentence that has such a constituent
+    close = {"{": "}", "<": ">", "(": ")", "[": "]"}
+    best = {}
+    for sn in sentences:
+        t = sn["terms"]
+        if not (2 <= len(t) <= 60):
+            continue
+        nodes = sn["nodes"]
+        for ni, (k, first, last) in enumerate(nodes):
+            owned = set(range(first, last + 1))
+            for (k2, f2, l2) in nodes[ni + 1:]:
+                if f2 > last:
+                    break
+                if f2 >= first and l2 <= last and (f2, l2) != (first, last):
+                    owned -= set(range(f2, l2 + 1))
+            owned = sorted(owned)
+            for r, idx in enumerate(owned):
+                key = (k, "drop", r, t[idx])
+                if key not in best or len(best[key]) > len(t) - 1:
+                    best[key] = t[:idx] + t[idx + 1:]
+                if t[idx] in close:
+                    for idx2 in owned[r + 1:]:
+                        if t[idx2] == close[t[idx]]:
+                            key = (k, "unbracket", r, t[idx], t[idx + 1] if idx2 > idx + 1 else "")      # by the first token inside
+                            if key not in best or len(best[key]) > len(t) - 2:
+                                best[key] = t[:idx] + t[idx + 1:idx2] + t[idx2 + 1:]
+                            break
+    nsys = 0
+    for key in sorted(best):
+        tt = best[key]
+        if tt and tuple(tt) not in seen:
+            seen.add(tuple(tt))
+            muts.append({"terms": tt, "op": "%s:%s" % (key[1], key[0])})
+            nsys += 1
     traces = [m["terms"] for m in muts]
     lib_acc, far = recognise(traces, "liberal", wd, "lib")
     strict_acc, _ = recognise(traces, "strict", wd, "strict")
@@ -347,7 +398,7 @@ def check_c04(tier, seed):
                     "contexts_(stack,previous_terminal)_within_bound": stats["contexts"], "context_bound": stats["context_bound"],
                     "context_sentences": stats["context_sentences"],
                     "decorated": sum(1 for s in sentences if s["rich"]), "mismatching": fwd_bad, "corpus_files": len(corpus)},
-        "converse": {"mutants": len(muts), "rejected_by_every_reading": n_rej, "accepted_by_strict_reading": n_acc,
+        "converse": {"mutants": len(muts), "systematic_required_token_mutants": nsys, "rejected_by_every_reading": n_rej, "accepted_by_strict_reading": n_acc,
                      "in_between_no_expectation": len(muts) - n_rej - n_acc},
         "explanation": "GrammarGen.tla enumerated by TLC exhaustively to the bound plus seeded choice tapes; GrammarRec.tla (TLC, trace "
                        "validation) decides every mutant under the liberal and the strict reading",
